@@ -25,10 +25,11 @@ pub static mut MUL32: Uf = Uf::new();
 pub static mut DIV32: Uf = Uf::new();
 pub static mut REM32: Uf = Uf::new();
 fn sorted(a: u64, b: u64) -> (u64, u64) { if a <= b { (a, b) } else { (b, a) } }
-pub fn mul64(a: u64, b: u64) -> u64 { let (x, y) = sorted(a, b); unsafe { MUL64.call(x, y) } }
+// the two facts about products the JIT relies on are kept: x*0 = 0 and x*1 = x
+pub fn mul64(a: u64, b: u64) -> u64 { let (x, y) = sorted(a, b); if x == 0 { 0 } else if x == 1 { y } else { unsafe { MUL64.call(x, y) } } }
 pub fn div64(a: u64, b: u64) -> u64 { unsafe { DIV64.call(a, b) } }
 pub fn rem64(a: u64, b: u64) -> u64 { unsafe { REM64.call(a, b) } }
-pub fn mul32(a: u32, b: u32) -> u32 { let (x, y) = sorted(a as u64, b as u64); unsafe { MUL32.call(x, y) as u32 } }
+pub fn mul32(a: u32, b: u32) -> u32 { let (x, y) = sorted(a as u64, b as u64); if x == 0 { 0 } else if x == 1 { y as u32 } else { unsafe { MUL32.call(x, y) as u32 } } }
 pub fn div32(a: u32, b: u32) -> u32 { unsafe { DIV32.call(a as u64, b as u64) as u32 } }
 pub fn rem32(a: u32, b: u32) -> u32 { unsafe { REM32.call(a as u64, b as u64) as u32 } }
 pub fn unspecified() -> u64 { kani::any() }
